@@ -766,7 +766,9 @@ func (e *Engine) notAViolation(f *Obligation, name string, base map[string]Shape
 				}
 			}
 		}
-		if cur := e.shapeOf(fn); cur.Loops != b.Loops && (strings.Contains(name, "/loop") || strings.Contains(f.Note, "`loop ")) {
+		if fc := e.contracts.funcs[k]; fc != nil && fc.LoopsRemapped {
+			// the contract's loops were found again by the source form of their headers
+		} else if cur := e.shapeOf(fn); cur.Loops != b.Loops && (strings.Contains(name, "/loop") || strings.Contains(f.Note, "`loop ")) {
 			return fmt.Sprintf("%s now has %d loops where the baseline has %d: rules and invariants attached to loops by ordinal no longer denote the loops they were written for", k, cur.Loops, b.Loops)
 		}
 		if f.Kind == "arith" && !sameShape(b, e.shapeOf(fn)) {
